@@ -24,6 +24,10 @@ type ordAssume struct {
 	cmp func(x, y ssa.Value) (int, bool)
 	// known: integers assumed for values the evaluation cannot compute (len of a list taken as 0, …)
 	known func(v ssa.Value) (int64, bool)
+	// call: assumed result of a call (a predicate on an input, such as IsLearner(peer))
+	call func(c *ssa.Call) (ordVal, bool)
+	// val: assumed value of anything else the function reads (a boolean field of an input, …)
+	val func(v ssa.Value) (ordVal, bool)
 }
 
 type ordVal struct {
@@ -79,6 +83,11 @@ func ordEval(fn *ssa.Function, env map[ssa.Value]ssa.Value, as ordAssume, depth 
 		if as.known != nil {
 			if k, ok := as.known(v); ok {
 				return ordVal{i: k, kind: 'i'}
+			}
+		}
+		if as.val != nil {
+			if r, ok := as.val(v); ok {
+				return r
 			}
 		}
 		return ordVal{}
@@ -162,6 +171,12 @@ func ordEval(fn *ssa.Function, env map[ssa.Value]ssa.Value, as ordAssume, depth 
 					vals[t] = ordVal{b: !x.b, kind: 'b'}
 				}
 			case *ssa.Call:
+				if as.call != nil {
+					if r, ok := as.call(t); ok {
+						vals[t] = r
+						continue
+					}
+				}
 				if f := t.Call.StaticCallee(); f != nil && len(f.Blocks) > 0 && f.Signature.Results().Len() == 1 && f != fn {
 					sub := map[ssa.Value]ssa.Value{}
 					for i, p := range f.Params {
